@@ -1158,8 +1158,9 @@ def _r4(ctx):
         # a value computed some other way (macro, helper filter) is not understood
         known = got is not None and all(p_.split(".")[0] in ("network", "ode") for p_ in _paths_in(got[0])) and \
             not any(isinstance(x, tuple) and x and (x[0] in ("call", "test") or (x[0] == "filter" and x[1] not in ("length", "int"))) for x in _walk_j(got[0]))
-        if got is None or got[0] == w or known:
-            ctx.check(got is not None and got[0] == w, "R4", f"macro:{name}", (MACROS, got[1] if got else 0),
+        same = got is not None and (got[0] == w or (name == "NNZ" and got[0] in _NNZ_BY_LENGTH))
+        if got is None or same or known:
+            ctx.check(same, "R4", f"macro:{name}", (MACROS, got[1] if got else 0),
                       f"{name} is defined as {J.show(w)} -- the length of the sequence the generator enumerates",
                       expected=J.show(w), found=J.show(got[0]) if got else "undefined")
         else:
@@ -1248,6 +1249,8 @@ def _r4(ctx):
     ctx.floor("R4", "kernel offsets", noff, 3)
 
 
+# the number of stored entries read as the length of the value / column list (one element per stored entry: R1)
+_NNZ_BY_LENGTH = tuple(("filter", "length", ("attr", ("attr", ("name", "ode"), "jac"), f_), (), ()) for f_ in ("vals", "cols"))
 _SIZE_MACROS = {"NREACTIONS", "NHEATPROCS", "NCOOLPROCS", "NEQUATIONS", "NNZ", "NSPECIES", "NELEMENTS", "THERMAL"}
 
 
